@@ -108,6 +108,9 @@ def _glexindex(start, stop, cross_truncation=1.0):
     else:
         lower = cross_truncate(indices, start - 1, cross_truncation[0])
         upper = cross_truncate(indices, stop - 1, cross_truncation[1])
-        indices = indices[lower ^ upper]
+        # between the bounds: inside the upper one and not inside the lower one
+        # (an exclusive or also returned what lies inside the lower bound only,
+        # e.g. everything below `start` when `start` exceeds `stop`).
+        indices = indices[upper & ~lower]
 
     return numpy.array(indices, dtype=int).reshape(-1, dimensions)
